@@ -199,7 +199,7 @@ fn run_c37(ctx: &mut Ctx, rep: &mut Report) {
         // Several TALs (the engine's parallelism is per TAL plus deferred CA tasks): each TA lives in its own
         // repository (100+t, staggered speed), its children in the shared modules 1..=modules.
         let now = chrono::Utc::now().timestamp();
-        let mut w = World { now, tals: Vec::new(), cas: Vec::new(), host_override: Default::default(), notify_host_override: Default::default() };
+        let mut w = World { now, tals: Vec::new(), cas: Vec::new(), host_override: Default::default(), notify_host_override: Default::default(), ca_dir_override: Default::default() };
         for t in 0..tals {
             let one = gen_chain(&mut rng, now, 0, 1);
             let root = w.cas.len();
